@@ -13,6 +13,7 @@ from ksim import precipworld as W
 ID = 'C02'
 LEVEL = 'exploration'
 RULE = ('Each run = seeded configuration as in C01 with PSD recording on and small maxBins/cMax so that extend / coarsen / refine events occur within 250 steps; 1-4 solve calls. '
+        'After a step whose only grid event is an extension the distribution carried into the next step must still have the reported moments. '
         'Non-trivial = at least 5 steps with a populated distribution; distinct = distinct record digest; signature = (backend, phases, events: populated, nucleating step, zero-rate step, dissolving step, extend, remesh).')
 ASSUMPTIONS = ['Reported aggregates are compared with scalar-loop moments of the distribution passed to the recorded mass-balance evaluation (1e-11..1e-12 relative); the recorded PSD row must be that distribution with classes below 1 removed (bitwise).',
                'Number budget uses the largest nucleation rate handed to the population balance during the step\'s stages; slack 64 ulp x classes on N.',
